@@ -73,6 +73,67 @@ fn run_helper(sc: &Value) {
     emit(json!({"ev":"Helper","threads":threads,"rounds":rounds,"failures":failures,"first":first}));
 }
 
+/// "from any call site or thread": the instant the entry of the target has been flushed -- the library is still inside
+/// will_execute -- ANOTHER thread calls the function.  That call belongs to the new installation: it must be answered by
+/// the fake and counted from zero, in every one of `rounds` consecutive lifetimes through the same fake!(.., times: n) line.
+fn run_early(sc: &Value) {
+    panics::install_hook();
+    let rounds = i(sc, "rounds") as usize;
+    let n = (i(sc, "n") as usize).max(1);
+    let site = (i(sc, "site") as usize) % pool::NSITES;
+    pool::SITE_N[site].store(n, SeqCst);
+    pool::SITE_FAKE[site].store(1, SeqCst);
+    let target = pool::tb1 as fn(u32) -> bool as usize as u64;
+    static EARLY_CALLS: std::sync::atomic::AtomicU64 = std::sync::atomic::AtomicU64::new(0);
+    static EARLY_BAD: std::sync::atomic::AtomicU64 = std::sync::atomic::AtomicU64::new(0);
+    static ARMED: std::sync::atomic::AtomicBool = std::sync::atomic::AtomicBool::new(false);
+    *crate::interpose::FLUSH_HOOK.lock().unwrap() = Some(Box::new(move |s, e| {
+        if s <= target && target < e && ARMED.swap(false, SeqCst) {
+            let r = std::thread::spawn(|| catch_unwind(|| std::hint::black_box(pool::tb1 as fn(u32) -> bool)(1))).join();
+            EARLY_CALLS.fetch_add(1, SeqCst);
+            if !matches!(r, Ok(Ok(true))) {
+                EARLY_BAD.fetch_add(1, SeqCst);
+            }
+        }
+    }));
+    let mut failures = 0u64;
+    let mut first = String::new();
+    for _ in 0..rounds {
+        let r = catch_unwind(|| {
+            let mut inj = InjectorPP::new();
+            ARMED.store(true, SeqCst);
+            crate::interpose::in_lib(|| inj.when_called(injectorpp::func!(pool::tb1, fn(u32) -> bool)).will_execute(pool::counted_site(site)));
+            ARMED.store(false, SeqCst);
+            let f = std::hint::black_box(pool::tb1 as fn(u32) -> bool);
+            let mut ok = true;
+            for _ in 1..n {
+                ok &= f(1);
+            }
+            crate::interpose::in_lib(|| drop(inj));
+            ok
+        });
+        crate::interpose::set_in_lib(false);
+        match r {
+            Ok(true) => {}
+            Ok(false) => {
+                failures += 1;
+                if first.is_empty() {
+                    first = "a call was answered by the original".into();
+                }
+            }
+            Err(p) => {
+                failures += 1;
+                if first.is_empty() {
+                    first = panics::payload_str(&*p);
+                }
+            }
+        }
+    }
+    *crate::interpose::FLUSH_HOOK.lock().unwrap() = None;
+    emit(json!({"ev":"Early","rounds":rounds,"n":n,"failures":failures,"first":first,
+        "early_calls":EARLY_CALLS.load(SeqCst),"early_bad":EARLY_BAD.load(SeqCst)}));
+}
+
 fn run_one(sc: &Value) {
     panics::install_hook();
     let n = i(sc, "n") as usize;
@@ -180,6 +241,8 @@ pub fn run(script: &str, out: &str) {
         SCENARIO.store(i(&sc, "id") as u64, SeqCst);
         if sc.get("mode").and_then(|x| x.as_str()) == Some("helper") {
             child::run_logged(120, || run_helper(&sc));
+        } else if sc.get("mode").and_then(|x| x.as_str()) == Some("early") {
+            child::run_logged(120, || run_early(&sc));
         } else {
             child::run_logged(30, || run_one(&sc));
         }
